@@ -5,7 +5,7 @@ PROPS["C13"] = P(
     "(exhaustive where the cell name ends in 'exh'), (2) with seeded random schedules on larger scenarios, (3) natively in parallel with random delays at the scheduling points; "
     "thorough adds Miri (one Miri seed per process, data-race detector + weak memory) and TSan. evaluations = complete executions judged against the Vec model; "
     "distinct_nontrivial = distinct (structure, shape, placement, width, mode) scenario cells, every one with >= 2 threads writing; notes.interleavings_executed_dfs = distinct complete interleavings run by the DFS",
-    dict(builds=["DBG", "UBC"], budget=50),
+    dict(builds=["DBG", "UBC", "MIRI"], shards={"DBG": 6, "UBC": 6, "MIRI": 6}, budget=50, miri_seed_shards=True),
     dict(builds=["DBG", "UBC", "TSAN", "MIRI"], shards={"DBG": 6, "UBC": 6, "TSAN": 4, "MIRI": 32}, budget=500, miri_seed_shards=True),
     hang="violation", hang_limit=600, exhaustive=True, miriflags="-Zmiri-preemption-rate=0.2",
     level_text="Exploration, exhaustive on the small scenarios: every interleaving of the atomic operations (as delimited by the verif_hooks scheduling points) of 2 threads x <=3 writes and 3 threads x <=2 writes is executed on the real code and the final state compared with a plain Vec; larger scenarios are sampled (random schedules, native stress with injected delays); thorough adds Miri seeds (weak memory, data races) and TSan. Right level: the property quantifies over schedules, which only a controlled scheduler or an interpreter can vary.",
